@@ -388,6 +388,8 @@ def rule_order(ctx):
     # per-stream FIFO on the wire: a terminal/control frame must not overtake fragments of its own stream
     from .c05 import rule_a as c05a, rule_b as c05b
     c05a(ctx)
+    from .c05 import rule_f as c05f_
+    c05f_(ctx)
     # ... nor its own request: nothing but connect()'s SETUP is ever inserted at the head of the send queue
     c05b(ctx)
 
